@@ -20,6 +20,20 @@ let handle (f : string array) : string =
       let b = ast_of_string f.(9) in
       let den = match denote b with Some _ -> "" | None -> " nodenote" in
       if f.(0) = "T" then "T " ^ code (check_roundtrip a b) ^ den else
+      if f.(2) = "combo" then begin
+        (* the parts: kind,callable,param,new,note separated by ; *)
+        let parts = List.map (fun p -> Array.of_list (String.split_on_char ',' p))
+                      (String.split_on_char ';' (u f.(3))) in
+        let renames = List.filter_map (fun p ->
+          let c = ub p.(1) and x = ub p.(2) and y = ub p.(3) in
+          match p.(0) with
+          | "rename" -> Some (RenameCallable (c, y))
+          | "rename_in" -> Some (RenameInput (c, x, y))
+          | "rename_out" -> Some (RenameOutput (c, x, y))
+          | _ -> None) parts in
+        let rm = List.exists (fun p -> not (List.mem p.(0) ["rename"; "rename_in"; "rename_out"])) parts in
+        "E " ^ code (check_combo renames rm a b) ^ den
+      end else
       let c = ub f.(3) and x = ub f.(4) and y = ub f.(5) in
       let v = match f.(2) with
         | "rename" -> check_rename (RenameCallable (c, y)) a b
